@@ -62,8 +62,14 @@ fn kind_of(k: u8) -> ExternalActionSettlementKindV1 {
     }
 }
 
+thread_local! {
+    /// Size-boundary mode of the scenario being executed on this thread (see `C17::huge`).
+    pub(crate) static HUGE: std::cell::Cell<bool> = const { std::cell::Cell::new(false) };
+}
+
 fn result_bytes(a: SettleArgs) -> Vec<u8> {
-    (0..a.len).map(|i| a.salt.wrapping_mul(37).wrapping_add(i as u8)).collect()
+    let n = if HUGE.with(std::cell::Cell::get) { 1_048_576usize.saturating_sub(usize::from(a.len)) } else { usize::from(a.len) };
+    (0..n).map(|i| a.salt.wrapping_mul(37).wrapping_add(i as u8)).collect()
 }
 
 fn make_request(label: usize, scope: u8, budget: ExternalActionBudgetV1) -> Result<ExternalActionRequestV1, PErr> {
@@ -216,7 +222,7 @@ impl<'a, B: Backend> Sim<'a, B> {
         let n = sc.n();
         let mut reqs = Vec::new();
         for i in 0..n {
-            let budget = ExternalActionBudgetV1 { max_settlement_bytes: u64::from(sc.budget(i)), max_attempts: 1 };
+            let budget = ExternalActionBudgetV1 { max_settlement_bytes: sc.budget_bytes(i), max_attempts: 1 };
             match make_request(i, sc.scope(i), budget) {
                 Ok(r) => reqs.push(r),
                 Err(e) => return viol("harness:request_fixture", format!("request {i}: {e:?}")),
@@ -321,7 +327,7 @@ impl<'a, B: Backend> Sim<'a, B> {
                     Life::Settled(..) => Expect::Reject("second_settlement_admitted"),
                     Life::Claimed(_) => match bad {
                         SettleBad::None => {
-                            if *len <= self.sc.budget(i) {
+                            if self.sc.huge || *len <= self.sc.budget(i) {
                                 Expect::Accept
                             } else {
                                 Expect::Reject("settlement_out_of_bounds_admitted")
@@ -423,7 +429,7 @@ impl<'a, B: Backend> Sim<'a, B> {
                 let request = match bad {
                     ReqBad::None => self.reqs[i],
                     other => {
-                        let b = u64::from(self.sc.budget(i));
+                        let b = self.sc.budget_bytes(i);
                         let budget = match other {
                             ReqBad::ZeroBytes => ExternalActionBudgetV1 { max_settlement_bytes: 0, max_attempts: 1 },
                             ReqBad::ZeroAttempts => ExternalActionBudgetV1 { max_settlement_bytes: b, max_attempts: 0 },
